@@ -103,12 +103,27 @@ func (u *c14Upd) only(v ssa.Value, want ssa.Value) bool {
 		return false
 	}
 	ls := u.V.LeavesShallow(v)
+	ok := len(ls) > 0
 	for _, l := range ls {
+		if l != want {
+			ok = false
+		}
+	}
+	if ok {
+		return true
+	}
+	// through the results of helpers (which may return nil/zero next to an error)
+	n := 0
+	for _, l := range u.V.Leaves(v) {
+		if c14IsZero(l) {
+			continue
+		}
+		n++
 		if l != want {
 			return false
 		}
 	}
-	return len(ls) > 0
+	return n > 0
 }
 
 // isTag: v denotes the referrers tag computed by the updater.
@@ -445,21 +460,59 @@ func c14R3Updater(c *Ctx, u *c14Upd, getGen *ssa.Function) {
 				default:
 					return
 				}
-				src := st.Val
-				derived := c14Derives(src, fetched, 0)
-				if a, isAlloc := src.(*ssa.Alloc); isAlloc {
-					for _, s2 := range storesTo(a) {
-						if c14Derives(s2.Val, fetched, 0) {
-							derived = true
+				derivedOf := func(src ssa.Value) bool {
+					if c14Derives(src, fetched, 0) {
+						return true
+					}
+					if a, isAlloc := src.(*ssa.Alloc); isAlloc {
+						for _, s2 := range storesTo(a) {
+							if c14Derives(s2.Val, fetched, 0) {
+								return true
+							}
 						}
 					}
+					return false
 				}
-				if !derived {
+				src := st.Val
+				if derivedOf(src) {
+					nPub++
+					if !V.MustPassFrom(P, st, newCut().Edges(ne...)) {
+						okPub = false
+					}
+					return
+				}
+				// the value comes out of a helper: the helper's returns that carry fetched state are gated instead
+				viaHelper := false
+				for _, l := range V.Leaves(src) {
+					if c14IsZero(l) || !derivedOf(l) {
+						continue
+					}
+					viaHelper = true
+				}
+				if !viaHelper {
 					return
 				}
 				nPub++
-				if !V.MustPassFrom(P, st, newCut().Edges(ne...)) {
-					okPub = false
+				for _, g := range V.Funcs() {
+					if !u.PFns[g] || V.isRoot(g) {
+						continue
+					}
+					for _, ret := range Returns(g) {
+						carries := false
+						for _, rv := range ret.Results {
+							if isErrorType(rv.Type()) {
+								continue
+							}
+							for _, l := range Roots(rv) {
+								if !c14IsZero(l) && derivedOf(l) {
+									carries = true
+								}
+							}
+						}
+						if carries && !V.MustPassFrom(P, ret, newCut().Edges(ne...)) {
+							okPub = false
+						}
+					}
 				}
 			})
 		}
@@ -469,11 +522,16 @@ func c14R3Updater(c *Ctx, u *c14Upd, getGen *ssa.Function) {
 	var isOldDescD func(v ssa.Value, depth int) bool
 	// a pointer to (a copy of) the fetched descriptor
 	isOldDescPtrD := func(v ssa.Value, depth int) bool {
-		ls := V.LeavesShallow(v)
+		ls := V.Leaves(v)
 		if len(ls) == 0 || depth > 4 {
 			return false
 		}
+		nA := 0
 		for _, l := range ls {
+			if c14IsZero(l) {
+				continue // the nil a helper returns when there is no old index
+			}
+			nA++
 			a, isAlloc := l.(*ssa.Alloc)
 			if !isAlloc {
 				return false
@@ -488,7 +546,7 @@ func c14R3Updater(c *Ctx, u *c14Upd, getGen *ssa.Function) {
 				}
 			}
 		}
-		return true
+		return nA > 0
 	}
 	// (a copy of) the fetched descriptor
 	isOldDescD = func(v ssa.Value, depth int) bool {
